@@ -41,17 +41,24 @@ SeedStep ==
 
 HashCase(g, p) == [kind |-> "hash", g |-> g, p |-> p, cells |-> Assign(g, p),
                    need |-> Needed(g, p), allow |-> Allowed(g, p)]
-InitHash ==
-  /\ InitWith(NoProblem)
+(* root -> geometry -> point, again so that all workers share the enumeration *)
+InitHash == h = [kind |-> "hroot"] /\ InitWith(NoProblem)
+HashRootStep ==
+  /\ h.kind = "hroot"
   /\ \E nc \in NCs : \E nb \in NBs : \E s \in Ss : \E m \in 1..(s - 1) : \E hh \in 1..s :
-       LET g == [nc |-> nc, nb |-> nb, s |-> s, h |-> hh, m |-> m, wrap |-> Wrap, guard |-> Guard, walk |-> Walk] IN
-       \E p \in PointsOf(g) : h = HashCase(g, p)
+       h' = [kind |-> "hseed",
+             g |-> [nc |-> nc, nb |-> nb, s |-> s, h |-> hh, m |-> m, wrap |-> Wrap, guard |-> Guard, walk |-> Walk]]
+  /\ UNCHANGED mvars
+HashSeedStep ==
+  /\ h.kind = "hseed"
+  /\ \E p \in PointsOf(h.g) : h' = HashCase(h.g, p)
+  /\ UNCHANGED mvars
 
 Init == IF Mode = "greedy" THEN InitGreedy ELSE InitHash
 Step == /\ h = NoHash
         /\ \E p \in Cands(prob) : Consider(p) \/ SkipBorder(p)
         /\ UNCHANGED h
-Next == Mode = "greedy" /\ (RootStep \/ SeedStep \/ Step)
+Next == IF Mode = "greedy" THEN RootStep \/ SeedStep \/ Step ELSE HashRootStep \/ HashSeedStep
 
 IsHash == h.kind = "hash"
 
